@@ -344,6 +344,15 @@ def judge_result(ctx, case, result, own_rows):
             for k in ("slices_x", "slices_y", "picture_bytes"):
                 if cf[k] == 1:
                     ctx.count("configs_at_minimum:" + k)
+    # every non-empty column must come back as a configuration of its own: names are unique per column, so a
+    # column that silently replaces another one (e.g. a default name colliding with an explicit one) is a loss
+    if own_rows is not None:
+        ncols = csvtext.own_count_nonempty_columns(own_rows)
+        ctx.count("column_counts_judged")
+        if len(items) < ncols:
+            ctx.violation("features:column-lost",
+                          "file has %d non-empty columns but only %d configuration(s) were returned (names %r)"
+                          % (ncols, len(items), [n for n, _ in items][:6]), detail=det)
     # explicit duplicate names must not be accepted
     if own_rows is not None:
         file_names = csvtext.own_parse_names(own_rows)
